@@ -227,8 +227,9 @@ class InterfaceLDM3:
         """
         self.logging.debug(
             "Deleting provider data from application id %d", data_provider.application_id)
-        if self.ldm_service.ldm_maintenance.data_containers.exists("dataObjectID", data_provider.data_object_id):
-            self.ldm_service.del_provider_data(data_provider.data_object_id)
+        ldm_maintenance = self.ldm_service.ldm_maintenance
+        if ldm_maintenance.data_containers.exists("dataObjectID", data_provider.data_object_id):
+            ldm_maintenance.del_provider_data(ldm_maintenance.get_provider_data(data_provider.data_object_id))
             return DeleteDataProviderResp(
                 data_provider.application_id,
                 data_provider.data_object_id,
